@@ -247,6 +247,30 @@ where
             v.ts_vstd_to::<Array1<f64>, f64>(3, Some(2), Some(<Array1<f64> as Vec1<f64>>::uninit_ref_mut(&mut buf)));
             same("Array1<f64>/to", unsafe { buf.assume_init() }.into_iter().map(bits).collect())?;
         }
+        // a fallible mapping (vcut, one value outside every bin) collected into each container:
+        // the same Ok / Err outcome and the same labels whatever the container
+        {
+            let edges: Vec<T> = [-1.0e9, 0.0, 1.0e9].iter().map(|x| T::from_inner(*x)).collect();
+            let labels = [1.0_f64, 2.0];
+            let probe = |with_outlier: bool| -> (Result<Vec<u64>, String>, Result<Vec<u64>, String>, Result<Vec<u64>, String>, Result<Vec<u64>, String>) {
+                let mk = || v.titer().map(move |x| if with_outlier && x.clone().to_opt().is_some() { T::from_inner(f64::MAX) } else { x });
+                let a = mk().vcut(&edges, &labels, true, false).and_then(|it| it.try_collect_vec1::<Vec<f64>>()).map(|o| o.into_iter().map(bits).collect()).map_err(|e| e.to_string());
+                let b = mk().vcut(&edges, &labels, true, false).and_then(|it| it.try_collect_vec1::<VecDeque<f64>>()).map(|o| o.into_iter().map(bits).collect()).map_err(|e| e.to_string());
+                let c = mk().vcut(&edges, &labels, true, false).and_then(|it| it.try_collect_vec1::<Array1<f64>>()).map(|o| o.into_iter().map(bits).collect()).map_err(|e| e.to_string());
+                let d = mk().vcut(&edges, &labels, true, false).and_then(|it| it.try_collect_trusted_vec1::<Array1<f64>>()).map(|o| o.into_iter().map(bits).collect()).map_err(|e| e.to_string());
+                (a, b, c, d)
+            };
+            for with_outlier in [false, true] {
+                let (a, b, c, d) = probe(with_outlier);
+                for (name, r) in [("VecDeque<f64>", &b), ("Array1<f64>", &c), ("Array1<f64> (trusted)", &d)] {
+                    match (&a, r) {
+                        (Ok(x), Ok(y)) if x == y => {},
+                        (Err(_), Err(_)) => {},
+                        _ => return Err(format!("vcut collected into {name} gives {:?}, into Vec<f64> {:?}", r.as_ref().map(|x| x.len()), a.as_ref().map(|x| x.len()))),
+                    }
+                }
+            }
+        }
         // index driver into other containers
         let b2: Vec<u64> = v.ts_vargmax::<Vec<f64>, f64>(3, Some(1)).into_iter().map(bits).collect();
         let g2: Vec<u64> = v.ts_vargmax::<VecDeque<f64>, f64>(3, Some(1)).into_iter().map(bits).collect();
